@@ -78,8 +78,9 @@ def _visitor_classes():
     class Mixin:
         pass
 
+    from d42.validation import Formatter
     return {"Validator": Validator, "Generator": Generator, "Representor": Representor,
-            "Substitutor": Substitutor, "UV": UV, "UV2": UV2, "Mixin": Mixin}
+            "Substitutor": Substitutor, "UV": UV, "UV2": UV2, "Mixin": Mixin, "Formatter": Formatter}
 
 
 def _snapshot(classes):
@@ -96,8 +97,8 @@ def _restore(snap):
 
 
 def _extend(vis, bases, flag, meth):
-    def method(self, schema, **kwargs):
-        return _Marker("ext:" + meth)
+    def method(self, schema=None, **kwargs):
+        return _Marker("ext:" + meth) if not meth.startswith("_format") else "<plugin helper>"
     body = {"attr": 5} if meth == "attr" else {meth: method}
     kw = {"true": {"extend": True}, "one": {"extend": 1}, "absent": {}}[flag]
     import types
@@ -126,7 +127,7 @@ def replay(hist):
     from d42.declaration.types import Schema
     cls = _schema_classes()
     vis = _visitor_classes()
-    lib = [vis[v] for v in ("Validator", "Generator", "Representor", "Substitutor")]
+    lib = [vis[v] for v in ("Validator", "Generator", "Representor", "Substitutor", "Formatter")]
     snap = _snapshot([SchemaFacade] + lib)
     try:
         outs = []
@@ -162,9 +163,27 @@ def replay(hist):
                         and r not in ("TypeError", "AttributeError", "NotImplementedError"):
                     r = "builtin"          # the representor returns plain text
                 dispatch[c][v] = r
-        return {"outs": outs, "access": access, "dispatch": dispatch}
+        return {"outs": outs, "access": access, "dispatch": dispatch, "render": _render()}
     finally:
         _restore(snap)
+
+
+def _render():
+    """the default formatter's message for a type error two levels down"""
+    import d42
+    from d42.validation import Formatter
+    from th import PathHolder
+    from d42.validation.errors import TypeValidationError
+    err = TypeValidationError(PathHolder()["users"][1], "x", int)      # (the validator may have been extended)
+    try:
+        msg = err.format(Formatter())
+    except Exception as e:  # noqa
+        return "raised:" + type(e).__name__
+    if isinstance(msg, _Marker):
+        return str(msg)
+    if "<plugin helper" in msg:
+        return "ext:_format_path"
+    return "default" if "_['users'][1]" in msg else "other:" + msg[:60]
 
 
 def _instance(vis, v):
